@@ -43,26 +43,26 @@ Print Assumptions C11_sample_on_shock_left.
 (* ---- (b) rarefactions: at EVERY sampling speed the state returned has the entropy of the outer state (P/rho^g) and
    carries its Riemann invariant u -/+ 2a/(g-1), with al > 0 the local sound speed (al^2 = g p / r); inside the fan
    x/t = v +/- al; the tail does not overtake the head *)
-Theorem C11_sample_on_rarefaction_right : forall g rho u P Ps, 1 < g -> 0 < rho -> 0 < P -> forall xi, 0 < Ps -> Ps <= P ->
+Theorem C11_sample_on_rarefaction_right : forall clamp g rho u P Ps, 1 < g -> 0 < rho -> 0 < P -> forall xi, 0 < Ps -> Ps <= P ->
   let c := rconsts g in
   let a := soundspeed R RS c (1 / rho) P in
   let fK := fb R RS c P (tdgp1 R (cb R c) * (1 / rho)) (gm1dgp1 R (cb R c) * P) (1 / P) (tdgm1 R (cb R c) * a) Ps in
   let us := u + fK in
   let tail := right_tail_speed R RS c a (1 / P) us Ps in
-  let '(r, v, p) := sample_right_rarefaction_wave R RS c rho u P a (1 / P) us Ps xi in
+  let '(r, v, p) := sample_right_rarefaction_wave R RS c clamp rho u P a (1 / P) us Ps xi in
   tail <= u + a /\ 0 < r /\ p / Rpower r g = P / Rpower rho g /\
   exists al, 0 < al /\ al * al = g * p / r /\ v - 2 / (g - 1) * al = u - 2 / (g - 1) * a /\
              (tail <= xi < u + a -> v + al = xi) /\ (xi < tail -> v = us /\ p = Ps) /\ (u + a <= xi -> (r, v, p) = (rho, u, P)).
 Proof. exact sample_on_right_rarefaction. Qed.
 Print Assumptions C11_sample_on_rarefaction_right.
 
-Theorem C11_sample_on_rarefaction_left : forall g rho u P Ps, 1 < g -> 0 < rho -> 0 < P -> forall xi, 0 < Ps -> Ps <= P ->
+Theorem C11_sample_on_rarefaction_left : forall clamp g rho u P Ps, 1 < g -> 0 < rho -> 0 < P -> forall xi, 0 < Ps -> Ps <= P ->
   let c := rconsts g in
   let a := soundspeed R RS c (1 / rho) P in
   let fK := fb R RS c P (tdgp1 R (cb R c) * (1 / rho)) (gm1dgp1 R (cb R c) * P) (1 / P) (tdgm1 R (cb R c) * a) Ps in
   let us := u - fK in
   let tail := left_tail_speed R RS c a (1 / P) us Ps in
-  let '(r, v, p) := sample_left_rarefaction_wave R RS c rho u P a (1 / P) us Ps xi in
+  let '(r, v, p) := sample_left_rarefaction_wave R RS c clamp rho u P a (1 / P) us Ps xi in
   u - a <= tail /\ 0 < r /\ p / Rpower r g = P / Rpower rho g /\
   exists al, 0 < al /\ al * al = g * p / r /\ v + 2 / (g - 1) * al = u + 2 / (g - 1) * a /\
              (u - a < xi < tail -> v - al = xi) /\ (u - a < xi -> tail <= xi -> v = us /\ p = Ps) /\ (xi <= u - a -> (r, v, p) = (rho, u, P)).
@@ -71,65 +71,73 @@ Print Assumptions C11_sample_on_rarefaction_left.
 
 (* continuity in the sampling speed: the expressions used on the two sides of the fan head and of the fan tail agree
    there (the only jumps of the sampled solution are the shocks and the contact) *)
-Theorem C11_rarefaction_continuous_right : forall g rho u P Ps, 1 < g -> 0 < rho -> 0 < P -> 0 < Ps -> Ps <= P ->
+Theorem C11_rarefaction_continuous_right : forall clamp g rho u P Ps, 1 < g -> 0 < rho -> 0 < P -> 0 < Ps -> Ps <= P ->
   let c := rconsts g in
   let a := soundspeed R RS c (1 / rho) P in
   let fK := fb R RS c P (tdgp1 R (cb R c) * (1 / rho)) (gm1dgp1 R (cb R c) * P) (1 / P) (tdgm1 R (cb R c) * a) Ps in
   let us := u + fK in
   let tail := right_tail_speed R RS c a (1 / P) us Ps in
-  right_fan R RS c rho u P a (u + a) = (rho, u, P) /\
-  right_fan R RS c rho u P a tail = (rho * Rpower (Ps * (1 / P)) (ginv R c), us, Ps).
+  right_fan R RS c clamp rho u P a (u + a) = (rho, u, P) /\
+  right_fan R RS c clamp rho u P a tail = (rho * Rpower (Ps * (1 / P)) (ginv R c), us, Ps).
 Proof. exact right_rarefaction_continuous. Qed.
 Print Assumptions C11_rarefaction_continuous_right.
 
-Theorem C11_rarefaction_continuous_left : forall g rho u P Ps, 1 < g -> 0 < rho -> 0 < P -> 0 < Ps -> Ps <= P ->
+Theorem C11_rarefaction_continuous_left : forall clamp g rho u P Ps, 1 < g -> 0 < rho -> 0 < P -> 0 < Ps -> Ps <= P ->
   let c := rconsts g in
   let a := soundspeed R RS c (1 / rho) P in
   let fK := fb R RS c P (tdgp1 R (cb R c) * (1 / rho)) (gm1dgp1 R (cb R c) * P) (1 / P) (tdgm1 R (cb R c) * a) Ps in
   let us := u - fK in
   let tail := left_tail_speed R RS c a (1 / P) us Ps in
-  left_fan R RS c rho u P a (u - a) = (rho, u, P) /\
-  left_fan R RS c rho u P a tail = (rho * Rpower (Ps * (1 / P)) (ginv R c), us, Ps).
+  left_fan R RS c clamp rho u P a (u - a) = (rho, u, P) /\
+  left_fan R RS c clamp rho u P a tail = (rho * Rpower (Ps * (1 / P)) (ginv R c), us, Ps).
 Proof. exact left_rarefaction_continuous. Qed.
 Print Assumptions C11_rarefaction_continuous_left.
 
-(* ---- (c) vacuum: the samplers next to vacuum (model of C05_Defs, repaired coefficient) ARE the fan expressions of the
+(* ---- clamp: true = the code with "std::max(0., base)" in the six fan expressions (fix of the NaN at the vacuum front),
+   false = the code without; the theorems hold for both.  For clamp = true (the repaired code) the vacuum part of this model
+   is literally the model of C05_Defs.v (repaired fan coefficient, guarded bases), for every scalar instance (reals and binary64) *)
+Theorem C11_vacuum_model_is_c05 : forall (F : Type) (S : SOps F) (c : xconsts F) rhoL uL PL rhoR uR PR dxdt,
+  solve_novac F S c true rhoL uL PL rhoR uR PR dxdt = exact_solve_novac F S (cb F c) false rhoL uL PL rhoR uR PR dxdt.
+Proof. exact solve_novac_is_c05. Qed.
+Print Assumptions C11_vacuum_model_is_c05.
+
+(* ---- (c) vacuum: the samplers next to vacuum ARE the fan expressions of the
    non-vacuum solver between head and front; at the head they give the undisturbed state; at the front the base of the
    density and pressure powers is 0 (so rho = P = 0 with pow(0, y>0) = 0; Coq's Rpower 0 y is 1, hence the statement
    about the base), positive before it, and the gas velocity equals the front speed *)
-Theorem C11_vacuum_joins_fan : forall g rho u P, 1 < g -> 0 < rho -> 0 < P ->
+Theorem C11_vacuum_joins_fan : forall clamp g rho u P, 1 < g -> 0 < rho -> 0 < P ->
   let c := rconsts g in
   let a := soundspeed R RS c (1 / rho) P in
-  (forall xi, sample_right_vacuum R RS (cb R c) rho u P a xi =
+  (forall xi, sample_right_vacuum R RS c clamp rho u P a xi =
      if Rlt_dec (u - a) xi then
-       if Rlt_dec xi (u + 2 / (g - 1) * a) then with_flag (-1) (left_fan R RS c rho u P a xi) else (0%Z, 0, 0, 0)
+       if Rlt_dec xi (u + 2 / (g - 1) * a) then with_flag R (-1) (left_fan R RS c clamp rho u P a xi) else (0%Z, 0, 0, 0)
      else ((-1)%Z, rho, u, P)) /\
-  (forall xi, sample_left_vacuum R RS (cb R c) false rho u P a xi =
+  (forall xi, sample_left_vacuum R RS c clamp rho u P a xi =
      if Rlt_dec xi (u + a) then
-       if Rlt_dec (u - 2 / (g - 1) * a) xi then with_flag 1 (right_fan R RS c rho u P a xi) else (0%Z, 0, 0, 0)
+       if Rlt_dec (u - 2 / (g - 1) * a) xi then with_flag R 1 (right_fan R RS c clamp rho u P a xi) else (0%Z, 0, 0, 0)
      else (1%Z, rho, u, P)) /\
-  left_fan R RS c rho u P a (u - a) = (rho, u, P) /\ right_fan R RS c rho u P a (u + a) = (rho, u, P) /\
-  (forall xi, left_fan R RS c rho u P a xi =
+  left_fan R RS c clamp rho u P a (u - a) = (rho, u, P) /\ right_fan R RS c clamp rho u P a (u + a) = (rho, u, P) /\
+  (forall xi, 0 < lfan_base g u a xi -> left_fan R RS c clamp rho u P a xi =
      (rho * Rpower (lfan_base g u a xi) (2 / (g - 1)), 2 / (g + 1) * (a + 1 / 2 * (g - 1) * u + xi), P * Rpower (lfan_base g u a xi) (2 * g / (g - 1)))) /\
-  (forall xi, right_fan R RS c rho u P a xi =
+  (forall xi, 0 < rfan_base g u a xi -> right_fan R RS c clamp rho u P a xi =
      (rho * Rpower (rfan_base g u a xi) (2 / (g - 1)), 2 / (g + 1) * (- a + 1 / 2 * (g - 1) * u + xi), P * Rpower (rfan_base g u a xi) (2 * g / (g - 1)))) /\
   lfan_base g u a (u + 2 / (g - 1) * a) = 0 /\ rfan_base g u a (u - 2 / (g - 1) * a) = 0 /\
   (forall xi, xi < u + 2 / (g - 1) * a -> 0 < lfan_base g u a xi) /\ (forall xi, u - 2 / (g - 1) * a < xi -> 0 < rfan_base g u a xi) /\
-  snd (fst (left_fan R RS c rho u P a (u + 2 / (g - 1) * a))) = u + 2 / (g - 1) * a /\
-  snd (fst (right_fan R RS c rho u P a (u - 2 / (g - 1) * a))) = u - 2 / (g - 1) * a.
+  snd (fst (left_fan R RS c clamp rho u P a (u + 2 / (g - 1) * a))) = u + 2 / (g - 1) * a /\
+  snd (fst (right_fan R RS c clamp rho u P a (u - 2 / (g - 1) * a))) = u - 2 / (g - 1) * a.
 Proof. exact vacuum_joins_fan. Qed.
 Print Assumptions C11_vacuum_joins_fan.
 
 (* vacuum generated between two receding states: left state | left fan | vacuum | right fan | right state *)
-Theorem C11_vacuum_generation_cases : forall g rhoL uL PL aL rhoR uR PR aR, 1 < g -> 0 < aL -> 0 < aR ->
+Theorem C11_vacuum_generation_cases : forall clamp g rhoL uL PL aL rhoR uR PR aR, 1 < g -> 0 < aL -> 0 < aR ->
   2 / (g - 1) * aL + 2 / (g - 1) * aR <= uR - uL -> forall xi,
   let c := rconsts g in
-  sample_vacuum_generation R RS (cb R c) false rhoL uL PL aL rhoR uR PR aR xi =
+  sample_vacuum_generation R RS c clamp rhoL uL PL aL rhoR uR PR aR xi =
   if Rlt_dec xi (uL - aL) then ((-1)%Z, rhoL, uL, PL)
   else if Rle_dec xi (uL + 2 / (g - 1) * aL) then
-         (if Rlt_dec (uL - aL) xi then with_flag (-1) (left_fan R RS c rhoL uL PL aL xi) else ((-1)%Z, rhoL, uL, PL))
+         (if Rlt_dec (uL - aL) xi then with_flag R (-1) (left_fan R RS c clamp rhoL uL PL aL xi) else ((-1)%Z, rhoL, uL, PL))
   else if Rlt_dec xi (uR - 2 / (g - 1) * aR) then (0%Z, 0, 0, 0)
-  else if Rlt_dec xi (uR + aR) then with_flag 1 (right_fan R RS c rhoR uR PR aR xi)
+  else if Rlt_dec xi (uR + aR) then with_flag R 1 (right_fan R RS c clamp rhoR uR PR aR xi)
   else (1%Z, rhoR, uR, PR).
 Proof. intros. apply vacuum_generation_cases; assumption. Qed.
 Print Assumptions C11_vacuum_generation_cases.
@@ -168,88 +176,112 @@ Proof.
 Qed.
 Print Assumptions C11_pressure_function_monotone.
 
-(* ---- (e) Brent's loop for an ARBITRARY function f: every iterate stays in the initial bracket, the final pair (a,b)
-   still has f(a) f(b) <= 0 and |f(b)| <= |f(a)|, and unless the bound of 10^4 iterations was hit the loop stops with
-   f(b) = 0 or |a - b| <= 5e-9 (a + b) *)
-Theorem C11_brent_brackets : forall (f : R -> R) fuel Plow Phigh bs n hit,
-  solve_brent R RS f fuel Plow Phigh (f Plow) (f Phigh) = Some (bs, n, hit) ->
+(* ---- (e) Brent's loop for an ARBITRARY function f (and whatever std::pow computes: RSpw pw is ROps 0 1 with pow := pw):
+   every iterate stays in the initial bracket, the final pair (a,b) still has f(a) f(b) <= 0 and |f(b)| <= |f(a)|, and
+   unless the bound of 10^4 iterations was hit the loop stops with f(b) = 0 or |a - b| <= 5e-9 (a + b) *)
+Theorem C11_brent_brackets : forall pw (f : R -> R) fuel Plow Phigh bs n hit,
+  solve_brent R (RSpw pw) f fuel Plow Phigh (f Plow) (f Phigh) = Some (bs, n, hit) ->
   (Rmin Plow Phigh <= ba R bs <= Rmax Plow Phigh /\ Rmin Plow Phigh <= bb R bs <= Rmax Plow Phigh /\
    bfa R bs = f (ba R bs) /\ bfb R bs = f (bb R bs) /\ bfa R bs * bfb R bs <= 0 /\ Rabs (bfb R bs) <= Rabs (bfa R bs)) /\
-  (hit = false -> bfb R bs = 0 \/ Rabs (ba R bs - bb R bs) <= tol R RS * (ba R bs + bb R bs)).
+  (hit = false -> bfb R bs = 0 \/ Rabs (ba R bs - bb R bs) <= tol R (RSpw pw) * (ba R bs + bb R bs)).
 Proof. exact solve_brent_spec. Qed.
 Print Assumptions C11_brent_brackets.
 
 (* ... hence for continuous f and a bracket of non-negative pressures a root lies within 5e-9 (a + b) of the returned value *)
-Theorem C11_brent_root_close : forall (f : R -> R) fuel Plow Phigh bs n,
+Theorem C11_brent_root_close : forall pw (f : R -> R) fuel Plow Phigh bs n,
   continuity f -> 0 <= Plow -> 0 <= Phigh ->
-  solve_brent R RS f fuel Plow Phigh (f Plow) (f Phigh) = Some (bs, n, false) ->
+  solve_brent R (RSpw pw) f fuel Plow Phigh (f Plow) (f Phigh) = Some (bs, n, false) ->
   exists z, f z = 0 /\ Rmin Plow Phigh <= z <= Rmax Plow Phigh /\ Rmin Plow Phigh <= bb R bs <= Rmax Plow Phigh /\
-            Rabs (z - bb R bs) <= tol R RS * (ba R bs + bb R bs).
+            Rabs (z - bb R bs) <= tol R (RSpw pw) * (ba R bs + bb R bs).
 Proof. exact solve_brent_root_close. Qed.
 Print Assumptions C11_brent_root_close.
 
 (* the Newton loop, when it stops, stops with consistent function values and either the step test or f >= 0 *)
-Theorem C11_newton_exit : forall (f fp : R -> R) fuel Pstar fPstar Pguess fPguess n Ps' fPs' Pg' fPg' n',
+Theorem C11_newton_exit : forall pw (f fp : R -> R) fuel Pstar fPstar Pguess fPguess n Ps' fPs' Pg' fPg' n',
   fPstar = f Pstar -> fPguess = f Pguess ->
-  newton_loop R RS f fp fuel Pstar fPstar Pguess fPguess n = Some (Ps', fPs', Pg', fPg', n') ->
-  fPs' = f Ps' /\ fPg' = f Pg' /\ (Rabs (Ps' - Pg') <= tol R RS * (Ps' + Pg') \/ 0 <= f Pg').
+  newton_loop R (RSpw pw) f fp fuel Pstar fPstar Pguess fPguess n = Some (Ps', fPs', Pg', fPg', n') ->
+  fPs' = f Ps' /\ fPg' = f Pg' /\ (Rabs (Ps' - Pg') <= tol R (RSpw pw) * (Ps' + Pg') \/ 0 <= f Pg').
 Proof. exact newton_loop_spec. Qed.
 Print Assumptions C11_newton_exit.
 
-(* ---- the star state of solve(): ustar is the mean of the two one-sided values, each off by half the residual of the
-   pressure equation; when Brent's method produced Pstar (and the iteration bound was not hit) Pstar is bracketed to the
-   stated accuracy.  PARTIAL: when the Newton loop stops on its step test (code 2) the model gives no bound on the
-   residual (that needs concavity of f: Newton iterates approach the root from the left). *)
-Theorem C11_ustar_residual : forall g rhoL uL PL rhoR uR PR p,
+(* ---- the star state of solve(), for ANY pow function (pw := Rpower is RS; pw := cpow is Rpower with the C value
+   pow(0, y > 0) = 0, which matters at the lower end P = 0 of the first Brent bracket): ustar is the mean of the two
+   one-sided values, each off by half the residual of the pressure equation; when Brent's method produced Pstar (and the
+   iteration bound was not hit) Pstar is bracketed to the stated accuracy.  PARTIAL: when the Newton loop stops on its step
+   test (code 2) the model gives no bound on the residual (that needs concavity of f: Newton iterates approach the root
+   from the left). *)
+Theorem C11_ustar_residual : forall pw g rhoL uL PL rhoR uR PR p,
+  let S := RSpw pw in
   let c := rconsts g in
-  let aL := soundspeed R RS c (1 / rhoL) PL in
-  let aR := soundspeed R RS c (1 / rhoR) PR in
-  let fL := fb R RS c PL (tdgp1 R (cb R c) * (1 / rhoL)) (gm1dgp1 R (cb R c) * PL) (1 / PL) (tdgm1 R (cb R c) * aL) p in
-  let fR := fb R RS c PR (tdgp1 R (cb R c) * (1 / rhoR)) (gm1dgp1 R (cb R c) * PR) (1 / PR) (tdgm1 R (cb R c) * aR) p in
+  let aL := soundspeed R S c (1 / rhoL) PL in
+  let aR := soundspeed R S c (1 / rhoR) PR in
+  let fL := fb R S c PL (tdgp1 R (cb R c) * (1 / rhoL)) (gm1dgp1 R (cb R c) * PL) (1 / PL) (tdgm1 R (cb R c) * aL) p in
+  let fR := fb R S c PR (tdgp1 R (cb R c) * (1 / rhoR)) (gm1dgp1 R (cb R c) * PR) (1 / PR) (tdgm1 R (cb R c) * aR) p in
   let ustar := 1 / 2 * ((uL + uR) + (fR - fL)) in
-  ustar - (uL - fL) = 1 / 2 * pressure_function g rhoL uL PL rhoR uR PR p /\
-  (uR + fR) - ustar = 1 / 2 * pressure_function g rhoL uL PL rhoR uR PR p.
+  ustar - (uL - fL) = 1 / 2 * pressure_function_pw pw g rhoL uL PL rhoR uR PR p /\
+  (uR + fR) - ustar = 1 / 2 * pressure_function_pw pw g rhoL uL PL rhoR uR PR p.
 Proof. exact ustar_residual. Qed.
 Print Assumptions C11_ustar_residual.
 
-Theorem C11_star_state_accuracy_partial : forall g rhoL uL PL rhoR uR PR nfuel bfuel,
+Theorem C11_star_state_accuracy_partial : forall pw g rhoL uL PL rhoR uR PR nfuel bfuel,
+  let S := RSpw pw in
   let c := rconsts g in
-  let F := pressure_function g rhoL uL PL rhoR uR PR in
-  let aL := soundspeed R RS c (1 / rhoL) PL in
-  let aR := soundspeed R RS c (1 / rhoR) PR in
-  let fL := fb R RS c PL (tdgp1 R (cb R c) * (1 / rhoL)) (gm1dgp1 R (cb R c) * PL) (1 / PL) (tdgm1 R (cb R c) * aL) in
-  let fR := fb R RS c PR (tdgp1 R (cb R c) * (1 / rhoR)) (gm1dgp1 R (cb R c) * PR) (1 / PR) (tdgm1 R (cb R c) * aR) in
-  let st := star_state R RS c nfuel bfuel rhoL uL PL rhoR uR PR in
+  let F := pressure_function_pw pw g rhoL uL PL rhoR uR PR in
+  let aL := soundspeed R S c (1 / rhoL) PL in
+  let aR := soundspeed R S c (1 / rhoR) PR in
+  let fL := fb R S c PL (tdgp1 R (cb R c) * (1 / rhoL)) (gm1dgp1 R (cb R c) * PL) (1 / PL) (tdgm1 R (cb R c) * aL) in
+  let fR := fb R S c PR (tdgp1 R (cb R c) * (1 / rhoR)) (gm1dgp1 R (cb R c) * PR) (1 / PR) (tdgm1 R (cb R c) * aR) in
+  let st := star_state R S c nfuel bfuel rhoL uL PL rhoR uR PR in
   (st_code R st = 2%Z \/ st_code R st = 3%Z) ->
   st_u R st = 1 / 2 * ((uL + uR) + (fR (st_P R st) - fL (st_P R st))) /\
   (st_code R st = 3%Z -> st_brent_bound_hit R st = false ->
    exists a lo hi, lo <= a <= hi /\ lo <= st_P R st <= hi /\
      F a * F (st_P R st) <= 0 /\ Rabs (F (st_P R st)) <= Rabs (F a) /\
-     (F (st_P R st) = 0 \/ Rabs (a - st_P R st) <= tol R RS * (a + st_P R st))).
+     (F (st_P R st) = 0 \/ Rabs (a - st_P R st) <= tol R S * (a + st_P R st))).
 Proof. exact star_state_spec. Qed.
 Print Assumptions C11_star_state_accuracy_partial.
 
+(* with the C value of pow at 0 the pressure function at P = 0 is the negated vacuum-generation margin (so the first
+   Brent bracket [0, guess] starts with f < 0 exactly when solve() did not branch to vacuum generation), and for P > 0
+   it is the function of the monotonicity theorem (pw := Rpower) *)
+Theorem C11_pressure_function_at_zero : forall g rhoL uL PL rhoR uR PR, 1 < g -> 0 < PL -> 0 < PR ->
+  let c := rconsts g in
+  let aL := soundspeed R RS c (1 / rhoL) PL in
+  let aR := soundspeed R RS c (1 / rhoR) PR in
+  pressure_function_pw cpow g rhoL uL PL rhoR uR PR 0 = (uR - uL) - (2 / (g - 1) * aL + 2 / (g - 1) * aR) /\
+  (forall p, 0 < p -> pressure_function_pw cpow g rhoL uL PL rhoR uR PR p = pressure_function_pw Rpower g rhoL uL PL rhoR uR PR p) /\
+  (forall x y, 0 < x -> cpow x y = Rpower x y) /\ (forall y, 0 < y -> cpow 0 y = 0) /\ RSpw Rpower = RS.
+Proof.
+  intros g rhoL uL PL rhoR uR PR Hg H1 H2. cbv zeta. split; [| split; [| split; [| split]]].
+  - apply pressure_function_cpow_at_0; assumption.
+  - intros. apply pressure_function_cpow_pos; assumption.
+  - exact cpow_pos.
+  - exact cpow_0.
+  - exact RSpw_Rpower.
+Qed.
+Print Assumptions C11_pressure_function_at_zero.
+
 (* ---- solve(): for non-vacuum input below the vacuum-generation limit the answer is the wave samplers applied to the
    star state, the contact separating left from right; at or beyond the limit it is the vacuum-generation sampler *)
-Theorem C11_solve_dispatch : forall g rhoL uL PL rhoR uR PR nf bf xi, 1 < g -> 0 < rhoL -> 0 < PL -> 0 < rhoR -> 0 < PR ->
+Theorem C11_solve_dispatch : forall clamp g rhoL uL PL rhoR uR PR nf bf xi, 1 < g -> 0 < rhoL -> 0 < PL -> 0 < rhoR -> 0 < PR ->
   let c := rconsts g in
   let aL := soundspeed R RS c (1 / rhoL) PL in
   let aR := soundspeed R RS c (1 / rhoR) PR in
   let st := star_state R RS c nf bf rhoL uL PL rhoR uR PR in
   (uR - uL < 2 / (g - 1) * aL + 2 / (g - 1) * aR ->
-   solve R RS c nf bf rhoL uL PL rhoR uR PR xi = (sample_star R RS c st rhoL uL PL rhoR uR PR xi, Some st)) /\
+   solve R RS c clamp nf bf rhoL uL PL rhoR uR PR xi = (sample_star R RS c clamp st rhoL uL PL rhoR uR PR xi, Some st)) /\
   (2 / (g - 1) * aL + 2 / (g - 1) * aR <= uR - uL ->
-   solve R RS c nf bf rhoL uL PL rhoR uR PR xi = (sample_vacuum_generation R RS (cb R c) false rhoL uL PL aL rhoR uR PR aR xi, None)) /\
+   solve R RS c clamp nf bf rhoL uL PL rhoR uR PR xi = (sample_vacuum_generation R RS c clamp rhoL uL PL aL rhoR uR PR aR xi, None)) /\
   ((st_code R st = 2%Z \/ st_code R st = 3%Z) ->
-   sample_star R RS c st rhoL uL PL rhoR uR PR xi =
+   sample_star R RS c clamp st rhoL uL PL rhoR uR PR xi =
    if Rlt_dec (st_u R st) xi then
-     with_flag 1 (if Rlt_dec PR (st_P R st)
+     with_flag R 1 (if Rlt_dec PR (st_P R st)
                   then sample_right_shock_wave R RS c rhoR uR PR aR (1 / PR) (st_u R st) (st_P R st) xi
-                  else sample_right_rarefaction_wave R RS c rhoR uR PR aR (1 / PR) (st_u R st) (st_P R st) xi)
+                  else sample_right_rarefaction_wave R RS c clamp rhoR uR PR aR (1 / PR) (st_u R st) (st_P R st) xi)
    else
-     with_flag (-1) (if Rlt_dec PL (st_P R st)
+     with_flag R (-1) (if Rlt_dec PL (st_P R st)
                      then sample_left_shock_wave R RS c rhoL uL PL aL (1 / PL) (st_u R st) (st_P R st) xi
-                     else sample_left_rarefaction_wave R RS c rhoL uL PL aL (1 / PL) (st_u R st) (st_P R st) xi)).
+                     else sample_left_rarefaction_wave R RS c clamp rhoL uL PL aL (1 / PL) (st_u R st) (st_P R st) xi)).
 Proof.
   intros g rhoL uL PL rhoR uR PR nf bf xi Hg H1 H2 H3 H4. cbv zeta. split; [| split].
   - apply solve_nonvacuum; assumption.
@@ -260,6 +292,6 @@ Print Assumptions C11_solve_dispatch.
 
 (* the hypotheses are satisfiable and the binary64 instance of the model runs: Sod's tube (gamma = 2) yields a star
    state, 0.1 < Pstar < 1, ustar > 0, residual below 1e-7, and the samples left/right/inside are as expected *)
-Theorem C11_model_runs_sod : sod_checks = true.
+Theorem C11_model_runs_sod : sod_checks true = true /\ sod_checks false = true.
 Proof. exact sod_checks_true. Qed.
 Print Assumptions C11_model_runs_sod.
